@@ -17,17 +17,21 @@ Rec == ndJsonDeserialize(IOEnv.TRACE)
 SummaryHalf == 512      \* MisraGries keeps at most this many distinct strings when it tidies
 SummaryCap  == 1024
 
-VARIABLES l, slots, skip, errs
-vars == <<l, slots, skip, errs>>
+VARIABLES l, slots, skip, errs, cleared
+vars == <<l, slots, skip, errs, cleared>>
 
-Err(e, why) == IF PrintT(<<"ERR", ToJson([line |-> l, run |-> e.run, why |-> why])>>) THEN errs + 1 ELSE errs
+\* `cleared`: slots that were cleared earlier in this run - a rejection on such a slot also
+\* means that clear() did not make the region fresh (C08)
+SlotOf(e) == IF "s" \in DOMAIN e THEN e.s ELSE IF "d" \in DOMAIN e THEN e.d ELSE 0
+Err(e, why) == IF PrintT(<<"ERR", ToJson([line |-> l, run |-> e.run, why |-> why,
+                                          afterclear |-> SlotOf(e) \in cleared])>>) THEN errs + 1 ELSE errs
 
 \* monitor view of a slot: which tags are assigned, which strings must / may be entries,
 \* what was learnt from the log about the ties, and the statistics it accumulates itself
 Fresh == [tags |-> {}, must |-> {}, may |-> {}, anyseen |-> FALSE, coded |-> {}, literal |-> {}, k |-> 0,
           counts |-> NoCounts, first |-> {}, issued |-> <<>>, exact |-> TRUE, poisoned |-> FALSE]
 
-Init == l = 1 /\ slots = <<>> /\ skip = FALSE /\ errs = 0
+Init == l = 1 /\ slots = <<>> /\ skip = FALSE /\ errs = 0 /\ cleared = {}
 
 Distinct(sl) == Cardinality(DOMAIN sl.counts)
 
@@ -98,6 +102,10 @@ Step(e) ==
 Next == /\ l <= Len(Rec)
         /\ l' = l + 1
         /\ Step(Rec[l])
+        /\ cleared' = IF Rec[l].ev = "reset" THEN {}
+                      ELSE IF Rec[l].ev = "clear" THEN cleared \cup {Rec[l].s}
+                      ELSE IF Rec[l].ev = "merge" THEN cleared \ {Rec[l].d}
+                      ELSE cleared
         /\ (l = Len(Rec)) => PrintT(<<"DONE", l, errs'>>)
 
 Spec == Init /\ [][Next]_vars
